@@ -97,6 +97,11 @@ def cc_body(k: str, v: str = "d", w: str = "e") -> str:
     return f"{k}|{v}|{w}"
 
 
+def cc_noargs() -> str:
+    """the gated body of `cc_body` for a task WITHOUT parameters (its serialized-argument dictionary is empty)"""
+    return cc_body("-")
+
+
 # ---- effect-program tracing (harness/translate/programs.py) ---------------------------------------
 class ProgError(Exception):
     pass
